@@ -661,6 +661,30 @@ def check(repo: Repo, run: Run) -> None:
     run.ob("K9", MOD, "TracesParser.parse_event_list", "no state change",
            not [e for e in rec.effects if e.func.endswith(".parse_event_list")], "parse_event_list mutates state", nontrivial=False)
 
+    # ---- K13 every decoder function is in the table: a `handle_<code>` function of a family module that no row of any table
+    # names and no other function refers to is a decoder that lost its row (a duplicate value in an enum the table is derived
+    # from, a dropped line) - records of its code are no longer decoded and change pairing domain
+    import ast as _ast
+    reg_all = registry.load_all(repo)
+    named = {(e_.module.name, e_.func_name) for es_ in reg_all.values() for e_ in es_}
+    n_fn = 0
+    for fam_ in reg_all:
+        fmod = repo.module(f"trace_handlers.{fam_}")
+        refs = {x.id for x in _ast.walk(fmod.tree) if isinstance(x, _ast.Name) and isinstance(x.ctx, _ast.Load)} | \
+               {x.attr for x in _ast.walk(fmod.tree) if isinstance(x, _ast.Attribute)}
+        for fname_ in fmod.functions:
+            if not fname_.startswith("handle_"):
+                continue
+            n_fn += 1
+            lost = (fmod.name, fname_) not in named and fname_ not in refs
+            if lost:
+                run.ob("K13", fmod.name, fname_, f"{fname_} is in the decoder table", False,
+                       f"{fname_} is defined in {fmod.name} but no row of the decoder table names it and nothing refers to it: records "
+                       f"of its code yield no trace any more and are paired with the ordinary records", line=fmod.functions[fname_].lineno,
+                       witness="a record of that code, alone and inside an open window")
+    run.ob("K13", MOD, "decoder tables", "every handle_* function of a family module is named by a table row or used by another function",
+           True, "", nontrivial=False)
+    run.floor("K13", "decoder functions of the family modules", n_fn, 400)
     # ---- K10 the window tables belong to the three actions: no decoder (they all receive the parser) and no other method
     # of the parser writes into them, so what K3-K5 establish cannot be undone from outside
     from .. import decoders
